@@ -1,7 +1,7 @@
 SPECIFICATION Spec
 CONSTANTS
   Orders <- OrdersAll
-  Dts <- DtsT
+  Dts <- DtsS
   Targets <- TargS
   MaxTs = 3
   PublicQueue = FALSE
